@@ -39,7 +39,8 @@ def builder_cases():
             Sink("store:ppc.branch.BR_B", {"B": -1, "par": 1}, 0, ["net.trafo.i0_percent", "net.trafo.pfe_kw", "net.trafo.sn_mva"]),
             Sink("store:ppc.branch.TAP", {}, 0, ["net.trafo.vn_hv_kv", "net.trafo.vn_lv_kv", "net.trafo.tap_pos", "net.trafo.tap_neutral",
                                                  "net.trafo.tap_step_percent", "net.trafo.tap_side", "ppc.bus.BASE_KV"]),
-            Sink("store:ppc.branch.SHIFT", {}, 0, ["net.trafo.shift_degree", "net.trafo.tap_step_degree", "net.trafo.tap_pos"]),
+            Sink("store:ppc.branch.SHIFT", {}, 0, ["net.trafo.shift_degree", "net.trafo.tap_step_degree", "net.trafo.tap_pos", "net.trafo.tap_side",
+                                                   "net.trafo.tap_changer_type", "net.trafo.tap_neutral", "net.trafo.tap_step_percent"]),
             Sink("store:ppc.branch.RATE_A", {"V": 1, "A": 1, "par": 1}, 6, ["net.trafo.sn_mva", "net.trafo.df", "net.trafo.max_loading_percent"]),
             Sink("store:ppc.branch.BR_STATUS", {}, 0, ["net.trafo.in_service"]),
         ] + ([
